@@ -64,6 +64,9 @@ def tasks(tier, seed):
     else:
         for p in families.corpus(["fitzhughnagumo.ode"]):
             out.append(dict(p, opts={"delta": 1e-8, "backends": ["numpy"]}))
+    from .. import gen
+    for i, p in enumerate(gen.programs(tier, seed, 60, 600, "std")):
+        out.append(dict(p, opts={"delta": deltas[i % 3], "backends": [backends[i % 3]]}))
     return out + witness_tasks(PROP)
 
 
